@@ -247,11 +247,16 @@ class CallDetails:
         for i, param_name in enumerate(param_names):
             kind = param_name.get_kind()
 
-            if not is_kwarg:
+            # `*args` is positional even if it follows keyword arguments.
+            if not is_kwarg or star_count == 1:
                 if kind == Parameter.VAR_POSITIONAL:
                     return i
                 if kind in (Parameter.POSITIONAL_OR_KEYWORD, Parameter.POSITIONAL_ONLY):
                     if i == positional_count:
+                        if kind == Parameter.POSITIONAL_OR_KEYWORD \
+                                and param_name.string_name in used_names:
+                            # Was already given as a keyword argument.
+                            return None
                         return i
 
             if key_start is not None and not star_count == 1 or star_count == 2:
